@@ -133,6 +133,7 @@ def set_sources_attrs(f) -> list[tuple[str, str]] | None:
 
 def run(chk: Check) -> None:
     ix = get_index()
+    run_instance_wide(chk, ix)
     base = ix.cls(OP)
     ops = [c for c in base.all_subclasses() if c.module.name == "mypyc.ir.ops" and "sources" in c.methods and not any(isinstance(n, ast.Raise) for n in c.methods["sources"].node.body)]
     if len(ops) < 35:
@@ -300,3 +301,36 @@ def same_loop_iteration(g, a, b) -> bool:
     heads = [n for n in g.nodes if n.kind == "for-head"]
     r = g.reachable([b], avoiding=heads, labels_excluded=("exc",))
     return a not in r
+
+
+def run_instance_wide(chk: Check, ix) -> None:
+    """R06.4: emitters that touch the storage of *every* attribute of an instance agree on the attribute set."""
+    r4 = chk.rule("R06.4", "every emitter that initialises / traverses / clears / recycles the attribute storage of an instance visits the attributes of all classes in cl.base_mro (the struct holds inherited fields too), like the struct layout does", floor=4)
+    m = ix.module("mypyc.codegen.emitclass")
+    bulk = {"set_undefined_value", "emit_gc_visit", "emit_gc_clear", "emit_reuse_clear"}
+    par = m.parents()
+    n = 0
+    for q, f in sorted(ix.functions.items()):
+        if f.module is not m or f.parent is not None:
+            continue
+        for lp in ast.walk(f.node):
+            if not (isinstance(lp, ast.For) and isinstance(lp.iter, ast.Call) and isinstance(lp.iter.func, ast.Attribute) and lp.iter.func.attr == "items" and isinstance(lp.iter.func.value, ast.Attribute) and lp.iter.func.value.attr == "attributes"):
+                continue
+            touches = [c for c in ast.walk(lp) if isinstance(c, ast.Call) and isinstance(c.func, ast.Attribute) and c.func.attr in bulk and c.args and "self->" in norm(c.args[0])]
+            layout = f.name == "generate_object_struct"
+            if not touches and not layout:
+                continue
+            n += 1
+            owner = norm(lp.iter.func.value.value)
+            outer = par.get(lp)
+            while outer is not None and not isinstance(outer, (ast.For, ast.FunctionDef)):
+                outer = par.get(outer)
+            over_mro = isinstance(outer, ast.For) and norm(outer.target) == owner and "base_mro" in norm(outer.iter)
+            what = "struct layout" if layout else "/".join(sorted({c.func.attr for c in touches}))
+            key = f"{f.name}: {what} covers the attributes of every class in base_mro"
+            if over_mro:
+                r4.ok(key, f.loc(lp))
+            else:
+                r4.violation(key, f.loc(lp), f"iterates `{owner}.attributes` only: fields inherited from native base classes are skipped (not initialised / not visited by the GC / not released when the instance is freed or recycled)")
+    if n < 4:
+        raise AnalysisError(f"only {n} instance-wide attribute emitters recognised in emitclass.py")
